@@ -4,6 +4,30 @@ import json, subprocess, os
 ROOT = os.path.dirname(os.path.dirname(os.path.abspath(__file__)))
 ALL = ["C%02d" % i for i in range(1, 21)]
 CHECKS = {
+ "C02": dict(engine="SEQ", technique="bounded-exhaustive enumeration of upload protocols x payloads x names x every chunking of a resumable upload on the real HTTP handler, reference-model oracle",
+   text="Every combination of protocol, payload, declared MD5, gzip request body, object name and store, every composition of a resumable payload into chunks with status queries / re-sent / overlapping ranges at every position, and a BFS over upload/overwrite/delete sequences on neighbouring names in two buckets, executed through the emulator's own mux; after every step every object is fetched through the JSON, /download and public URL forms and metadata + listing are compared with the model.",
+   note="Trusted: gcs/model.go. Content type is sent where the official clients send it. Bucket names avoid the API's own path markers.",
+   ref="§4 C02"),
+ "C04": dict(engine="SEQ", technique="complete truth-table enumeration (320 condition combinations x object states x operations x stores) on the real HTTP handler, reference-model oracle",
+   text="The finite space of the four precondition parameters x object state x operation (all upload protocols incl. conditions captured at resumable initiation with the object changed in between, patch, delete, compose destination and per-source generation) x store is enumerated completely, then revisited from every history of a depth-3 BFS; status and the complete state of every object are compared with the model after each request.",
+   note="Failure status may be 412 or (for a failing not-match condition) 304; patch/delete on an absent object may answer 404 or the precondition status.",
+   ref="§4 C04"),
+ "C09": dict(engine="SEQ", technique="explicit-state BFS over request programs with a restart (fresh emulator on the same directory) after every request, plus side-by-side differential execution on both stores",
+   text="(a) every program up to the depth bound on the file store with the emulator replaced by a fresh instance on the same directory after EVERY request; the full observable state must equal the model of acknowledged requests, including after external loss of a sidecar and for bare content files; (b) the same programs on memory and file store side by side with every HTTP response compared after replacing generations by rank and masking timestamps.",
+   note="The file store keeps no volatile state, so a new instance on the same directory is exactly a kill between requests. Names are file-representable.",
+   ref="§4 C09"),
+ "C10": dict(engine="SEQ", technique="explicit-state BFS over write/patch/read/failure/delete sequences under three wall-clock granularities on the real HTTP handler, invariant + reference-model oracle",
+   text="Every sequence up to the depth bound over writes by every protocol, compose, copy, patches (user-settable, intrinsic-field and malformed bodies), reads, listings, failing requests, deletes and re-creations, for both stores and clock steps of 1 ns / 1 µs / 1 s; after every request the versioning laws are checked against the model (strictly increasing per-name generation, metageneration 1 / +1, nothing else changes, all reporting places agree).",
+   note="The wall clock is the vtime seam: strictly increasing, never frozen or stepped back.",
+   ref="§4 C10"),
+ "C11": dict(engine="SEQ", technique="exhaustive product: every subset of an 8-name universe x prefix x delimiter x page size x store on the real HTTP handler, page chains followed to the end",
+   text="Every subset of the name universe (256) x 8 prefixes x 5 delimiters x 5 page sizes x 2 stores; every page chain is followed until nextPageToken is empty and the concatenation is compared with the model listing (completeness, order, no repeats across pages, page sizes, item metadata), plus missing bucket and malformed token / maxResults.",
+   note="File store: subsets that are not representable as files (a name that is also a directory of another) are skipped and counted.",
+   ref="§4 C11"),
+ "C15": dict(engine="SEQ", technique="bounded-exhaustive enumeration of compose source lists and copy source/destination combinations on the real HTTP handler, reference-model oracle with follow-up patches",
+   text="Every compose source list of length <=3 over present/empty/missing objects plus 31/32/33/40-element lists, destination new / nested / among the sources, per-source generation match; every copy source x destination-name catalogue ('/', '/o/', spaces, dots) x bucket; each followed by patches of result and source so that later aliasing is caught; response and complete state compared with the model on both stores.",
+   note="Zero sources and a missing destination resource are not judged. componentCount not compared; composite MD5 unconstrained.",
+   ref="§4 C15"),
  "C03": dict(engine="SEQ", technique="exhaustive product enumeration of RowSets x limits x table contents on the real service, membership-predicate oracle + chunk state machine",
    text="Every RowSet of <=1 range + <=1 key and every pair of ranges (+ optional key) with each bound unset/open/closed over the 7 adversarial keys, x rows_limit x table contents (every subset of the key universe for single ranges), executed as ReadRows on the real service per engine and compared with a predicate-on-keys oracle (no range merging) and an independent chunk-stream decoder; multi-message result sets, limits combined with row-emptying filters, and SampleRowKeys under every answer sequence of the random seam. The enumerated space is finite and is covered completely (evidence: exhaustive=true).",
    note="Trusted: membership predicate in bt/model.go, chunk decoder in bt/driver.go. Empty byte strings as bounds/keys are not exercised. Quick tier: leveldb engines use the 4-key sub-universe for range pairs; thorough: full universe on all three engines.",
